@@ -20,6 +20,7 @@ package main
 import (
 	"context"
 	"encoding/json"
+	"errors"
 	"fmt"
 	"reflect"
 	"strings"
@@ -393,7 +394,17 @@ type KS struct {
 	P *int
 }
 
+// Verify makes HCfg a dials.VerifiedConfig: a stacked config with Reject set is refused
+// (handed to OnWatchedError as the rejected newConfig, never installed).
+func (c *HCfg) Verify() error {
+	if c.Reject {
+		return errors.New("rejected by Verify")
+	}
+	return nil
+}
+
 type HCfg struct {
+	Reject bool
 	MK     map[KS]int             // struct keys containing pointers,
 	MI     map[interface{}]string // interface keys holding pointers / structs with pointers,
 	MA     map[[1]*int]int        // array keys of pointers: the copier copies keys like values
@@ -501,6 +512,7 @@ func genHistory(in input) (*HCfg, []reflect.Value, int, []string) {
 		keyPool = append(keyPool, cfg.P) // also used as a map key component
 	}
 	fillKeyMaps(r, reflect.ValueOf(cfg).Elem(), &keyPool, 1000)
+	cfg.Reject = false                              // the initial stacking must verify
 	inputs := []reflect.Value{reflect.ValueOf(cfg)} // pointers to every input value
 	pt := ptrify.Pointerify(reflect.TypeOf(HCfg{}), reflect.ValueOf(cfg).Elem())
 	planted := 0
@@ -509,6 +521,9 @@ func genHistory(in input) (*HCfg, []reflect.Value, int, []string) {
 		rty.GenValue(r, p.Elem(), rty.VOpts{NilNum: r.Intn(4), NilDen: 4}, 0)
 		emptyWithCap(r, []reflect.Value{p.Elem()}, 1, 4)
 		fillKeyMaps(r, p.Elem(), &keyPool, 2000+100*i)
+		if f := p.Elem().FieldByName("Reject"); i < 3 {
+			f.Set(reflect.Zero(f.Type())) // the three initial source values leave it unset
+		}
 		roots := []reflect.Value{}
 		for _, q := range inputs {
 			roots = append(roots, q.Elem())
@@ -567,7 +582,12 @@ func runHistory(in input, mutateDefaults bool) (driver.Result, []string) {
 	s1 := &watchSrc{mk: mk}
 	s2 := &watchSrc{mk: mk}
 	var direct []string
-	d, err := dials.Config(ctx, cfg, s0, s1, s2)
+	// configs refused by Verify() are handed to OnWatchedError: they are values dials REPORTED
+	rejectedCh := make(chan *HCfg, 16)
+	params := dials.Params[HCfg]{OnWatchedError: func(_ context.Context, _ error, _, newConfig *HCfg) {
+		rejectedCh <- newConfig
+	}}
+	d, err := params.Config(ctx, cfg, s0, s1, s2)
 	if err != nil {
 		return driver.Result{Coq: "History FNil [] 0 0 [] []", Kind: "history", Direct: []string{"Config failed: " + err.Error()}}, nil
 	}
@@ -588,6 +608,8 @@ func runHistory(in input, mutateDefaults bool) (driver.Result, []string) {
 	versions := []reflect.Value{reflect.ValueOf(d.View())}
 	curA, curB := 2, 3 // indices (in inputs) of the values of the watchers A and B in force
 	inForce := [][2]int{{curA, curB}}
+	rejected := []bool{false}   // per stacking: was it refused by Verify (and reported through OnWatchedError)?
+	rejSnap := map[int]string{} // canonical snapshot of a refused config when it was reported
 	doneSeen := false
 	for _, ev := range script {
 		uctx, ucancel := context.WithTimeout(ctx, 10*time.Second)
@@ -610,15 +632,35 @@ func runHistory(in input, mutateDefaults bool) (driver.Result, []string) {
 			}
 			idx := next
 			v := mk(src.typ)
-			if err := src.args.BlockingReportNewValue(uctx, v); err != nil {
-				direct = append(direct, "BlockingReportNewValue failed: "+err.Error())
-			}
+			before := d.View()
+			rerr := src.args.BlockingReportNewValue(uctx, v)
+			// the value is in force from now on, whether or not the stacking was accepted
 			if ev == "B" {
 				curB = idx
 			} else {
 				curA = idx
 			}
-			versions = append(versions, reflect.ValueOf(d.View()))
+			if rerr == nil {
+				versions = append(versions, reflect.ValueOf(d.View()))
+				rejected = append(rejected, false)
+			} else {
+				// refused by Verify: wait for the rejected config handed to OnWatchedError
+				var rc *HCfg
+				for rc == nil {
+					select {
+					case rc = <-rejectedCh:
+					case <-time.After(5 * time.Second):
+						direct = append(direct, "BlockingReportNewValue failed and no rejected config was reported: "+rerr.Error())
+						rc = &HCfg{}
+					}
+				}
+				if d.View() != before {
+					direct = append(direct, "a config refused by Verify() changed what View() returns")
+				}
+				versions = append(versions, reflect.ValueOf(rc))
+				rejected = append(rejected, true)
+				rejSnap[len(versions)-1] = graphwalk.Canon(reflect.ValueOf(rc))
+			}
 			inForce = append(inForce, [2]int{curA, curB})
 		}
 		ucancel()
@@ -666,6 +708,14 @@ func runHistory(in input, mutateDefaults bool) (driver.Result, []string) {
 	for i, v := range versions {
 		vcanon[i] = graphwalk.Canon(v)
 	}
+	nrej := 0
+	for i, snap := range rejSnap {
+		nrej++
+		if vcanon[i] != snap {
+			direct = append(direct, fmt.Sprintf("the config of stacking %d, refused by Verify() and reported to OnWatchedError, was modified afterwards", i))
+		}
+	}
+	_ = rejected
 	// the inputs must be exactly what the generator produced: regenerate them without dials
 	if mutateDefaults {
 		// (this run only serves the comparison of the versions)
@@ -681,6 +731,9 @@ func runHistory(in input, mutateDefaults bool) (driver.Result, []string) {
 	tags := []string{fmt.Sprintf("updates-%d", in.Updates)}
 	if doneSeen {
 		tags = append(tags, "watcher-done-then-restacks")
+	}
+	if nrej > 0 {
+		tags = append(tags, "verify-rejected-stackings")
 	}
 	if planted > 0 {
 		tags = append(tags, "shared-inputs")
